@@ -14,7 +14,7 @@
      quantifying over ALL stale states of the acquired objects covers all
      earlier and concurrent histories. *)
 From FoxBase Require Import Bytes.
-From FoxC12 Require Import Types Context Ops Spec Corr ProofsBasic ProofsView ProofsNI ProofsNext ProofsStable ProofsClone Witness.
+From FoxC12 Require Import Types Context Ops Spec Corr ProofsBasic ProofsView ProofsNI ProofsParam ProofsNext ProofsStable ProofsClone Witness.
 From Coq Require Import ZArith.
 Open Scope list_scope.
 
@@ -56,6 +56,36 @@ Theorem handler_actions_refine_spec :
   run_acts acts H c = spec_trace acts v.
 Proof. exact run_acts_spec. Qed.
 Print Assumptions handler_actions_refine_spec.
+
+(* Param(name), the single-parameter accessor: wherever the getters show a view,
+   Param(name) does not panic and returns the first parameter of THAT view
+   called name, the empty string when there is none (so Param and Params()
+   cannot disagree) ... *)
+Theorem param_agrees_with_view :
+  forall H c v name, observe H c = Ok v -> ctx_param H (ctxs H c) name = Ok (expected_param v name).
+Proof. exact param_of_observe. Qed.
+Print Assumptions param_agrees_with_view.
+
+(* ... hence in every ServeHTTP branch, whatever the pooled object held, it is
+   the current request's parameter of that name or empty ... *)
+Theorem serve_param_current_request :
+  forall H c w r l f name, pool_ok H c -> lk_wf l ->
+  exists H', serve H c w r l f = Ok (H', branch_of l f) /\
+             ctx_param H' (ctxs H' c) name =
+             Ok (expected_param (expected (serve_env H c w r) (shape_of (branch_of l f) l f)) name).
+Proof. exact serve_param_proof. Qed.
+Print Assumptions serve_param_current_request.
+
+(* ... and on a CloneWith copy, whatever the pooled object taken for the copy
+   held, it is the parent's (current request's) parameter of that name or empty *)
+Theorem clone_with_param_current_request :
+  forall H c cp w r H' pv wv name,
+  observe H c = Ok pv -> pool_ok H cp -> sep H c cp ->
+  c_fox (ctxs H cp) = c_fox (ctxs H c) -> writer_view H w = Ok wv ->
+  clone_with H c cp w r = Ok H' ->
+  ctx_param H' (ctxs H' cp) name = Ok (expected_param pv name).
+Proof. exact clone_with_param_proof. Qed.
+Print Assumptions clone_with_param_current_request.
 
 (* NON-INTERFERENCE.  For all stale states (two arbitrary heaps, two arbitrary
    pooled objects: arbitrary leftovers in every field), one request of any
@@ -196,3 +226,13 @@ Example hypotheses_satisfiable_clone_stable :
     observe H'' 1 <> observe Hc 1.
 Proof. exact clone_stable_nonvacuous. Qed.
 Print Assumptions hypotheses_satisfiable_clone_stable.
+
+Example hypotheses_satisfiable_param :
+  exists H', exec true param_ops (heap_with staleA) = Some H' /\
+    c_tsr (ctxs H' 10) = true /\
+    rw_params (raw_of H' 10) = Some [(S2B "tenant", S2B "acme")] /\
+    (exists pv, observe H' 10 = Ok pv /\ v_params pv = [(S2B "a", S2B "TOK")]) /\
+    ctx_param H' (ctxs H' 10) (S2B "a") = Ok (S2B "TOK") /\
+    ctx_param H' (ctxs H' 10) (S2B "tenant") = Ok [].
+Proof. exact param_nonvacuous. Qed.
+Print Assumptions hypotheses_satisfiable_param.
